@@ -87,11 +87,14 @@ class Lam(object):
 
 
 class FnVal(object):
-    """a repository function as a value (with the environment of its definition for closures)"""
+    """a repository function as a value (with the environment of its definition for closures); `bound_args` /
+    `bound_kw` are the arguments already supplied by functools.partial"""
 
-    def __init__(self, fi, env):
+    def __init__(self, fi, env, bound_args=(), bound_kw=None):
         self.fi = fi
         self.env = env
+        self.bound_args = tuple(bound_args)
+        self.bound_kw = dict(bound_kw or {})
 
 
 STR_METHODS = {
@@ -393,8 +396,9 @@ class Folder(object):
             if fv is dict and not e.args and not e.keywords:
                 return {}
             if isinstance(fv, FnVal):
-                args = [self._e(a, env, at) for a in e.args]
-                kw = {k.arg: self._e(k.value, env, at) for k in e.keywords if k.arg}
+                args = list(fv.bound_args) + [self._e(a, env, at) for a in e.args]
+                kw = dict(fv.bound_kw)
+                kw.update({k.arg: self._e(k.value, env, at) for k in e.keywords if k.arg})
                 try:
                     return self._apply_fn(fv.fi, args, kw, closure=fv.env)
                 except _Raise as r:
@@ -420,6 +424,13 @@ class Folder(object):
                         return SAFE_BUILTINS[bn](*args)
                     except Exception:
                         return U
+                if nm == "functools.partial" and e.args:
+                    base = self._e(e.args[0], env, at)
+                    if isinstance(base, FnVal):
+                        kw2 = dict(base.bound_kw)
+                        kw2.update({k.arg: self._e(k.value, env, at) for k in e.keywords if k.arg})
+                        return FnVal(base.fi, base.env, tuple(base.bound_args) + tuple(self._e(a, env, at) for a in e.args[1:]), kw2)
+                    return U
                 if nm == "builtins.map" and len(e.args) == 2 and isinstance(e.args[0], ast.Attribute) and isinstance(e.args[0].value, ast.Name) \
                         and e.args[0].value.id == "str" and e.args[0].attr in ("casefold", "lower", "upper", "strip", "lstrip", "rstrip", "title", "capitalize"):
                     # map(str.<pure method>, <constant strings>)
@@ -489,7 +500,7 @@ class Folder(object):
     def _apply_fn(self, fi, args, kw, closure=None):
         node = fi.node
         a = node.args
-        if a.vararg or a.kwarg or a.kwonlyargs or a.posonlyargs:
+        if a.vararg or a.kwarg or a.posonlyargs:
             return UNKNOWN
         names = [x.arg for x in a.args]
         if len(args) > len(names):
@@ -497,7 +508,8 @@ class Folder(object):
         env = dict(closure or {})
         env.update(zip(names, args))
         defaults = dict(zip(names[len(names) - len(a.defaults) :], a.defaults))
-        for n in names[len(args) :]:
+        defaults.update({x.arg: d for x, d in zip(a.kwonlyargs, a.kw_defaults) if d is not None})
+        for n in names[len(args) :] + [x.arg for x in a.kwonlyargs]:
             if n in kw:
                 env[n] = kw[n]
             elif n in defaults:
